@@ -646,6 +646,7 @@ def run(repo, rep, tier):
                         % (tname, sep))
     _r8_exact_fields(repo, rep)
     _r10_seconds_with_days(repo, rep)
+    _r11_fixed_width_fields(repo, rep)
 
 
 def _r8_exact_fields(repo, rep, rid='C06.R8'):
@@ -816,3 +817,131 @@ def _r10_seconds_with_days(repo, rep):
                             'minutes becomes +1140)' % (base, base))
     if r10.sites < 2:
         raise AnalysisError('C06.R10: only %d uses of .seconds' % r10.sites)
+
+
+def _field_text_kind(e, env, params):
+    """how an expression of CIMDateTime._to_str() relates to the field
+    value: 'padded' (zero padded to the field width), 'piece' (slice of the
+    padded text), 'fill' (constant / repeated constant), 'unpadded' (the
+    decimal text of the number, variable width), 'bad' (a slice / pad of
+    the unpadded text), None (unknown)"""
+    import re as _re
+    if isinstance(e, ast.Name):
+        return env.get(e.id)
+    if isinstance(e, ast.Constant) and isinstance(e.value, str):
+        return 'fill'
+    if isinstance(e, ast.JoinedStr):
+        fvs = [v for v in e.values if isinstance(v, ast.FormattedValue)]
+        if len(fvs) == 1 and isinstance(fvs[0].value, ast.Name) and \
+                fvs[0].value.id in params:
+            spec = ''
+            if fvs[0].format_spec is not None:
+                for v in fvs[0].format_spec.values:
+                    spec += str(v.value) if isinstance(v, ast.Constant) \
+                        else '<n>'
+            return 'padded' if _re.fullmatch(r'0(\d+|<n>)d?', spec) \
+                else 'unpadded'
+        return None
+    if isinstance(e, ast.BinOp) and isinstance(e.op, ast.Mod) and \
+            isinstance(e.left, ast.Constant) and \
+            isinstance(e.left.value, str):
+        return 'padded' if _re.fullmatch(r'%0(\d+|\*)d', e.left.value) \
+            else 'unpadded'
+    if isinstance(e, ast.BinOp) and isinstance(e.op, ast.Mult):
+        a = _field_text_kind(e.left, env, params)
+        b = _field_text_kind(e.right, env, params)
+        return 'fill' if 'fill' in (a, b) else None
+    if isinstance(e, ast.BinOp) and isinstance(e.op, ast.Add):
+        a = _field_text_kind(e.left, env, params)
+        b = _field_text_kind(e.right, env, params)
+        if a is None or b is None:
+            return None
+        if 'bad' in (a, b) or 'unpadded' in (a, b):
+            return 'bad'
+        return 'piece' if 'piece' in (a, b) else \
+            ('padded' if 'padded' in (a, b) else 'fill')
+    if isinstance(e, ast.Subscript):
+        a = _field_text_kind(e.value, env, params)
+        if a in ('padded', 'piece'):
+            return 'piece'
+        if a in ('unpadded', 'bad'):
+            return 'bad'
+        return None
+    if isinstance(e, ast.Call):
+        d = dotted(e.func) or ''
+        if d in ('str', 'repr') and len(e.args) == 1 and \
+                isinstance(e.args[0], ast.Name) and e.args[0].id in params:
+            return 'unpadded'
+        if isinstance(e.func, ast.Attribute):
+            a = _field_text_kind(e.func.value, env, params)
+            at = e.func.attr
+            if at == 'zfill' or (at == 'rjust' and len(e.args) == 2 and
+                                 isinstance(e.args[1], ast.Constant) and
+                                 e.args[1].value == '0'):
+                return 'padded' if a in ('unpadded', 'padded') else a
+            if at in ('ljust', 'rjust', 'center'):
+                if a in ('padded', 'piece'):
+                    return 'piece'
+                if a in ('unpadded', 'bad'):
+                    return 'bad'
+        return None
+    if isinstance(e, ast.IfExp):
+        a = _field_text_kind(e.body, env, params)
+        b = _field_text_kind(e.orelse, env, params)
+        if 'bad' in (a, b) or 'unpadded' in (a, b):
+            return 'bad'
+        return a if a == b else ('piece' if a and b else None)
+    return None
+
+
+def _r11_fixed_width_fields(repo, rep):
+    """C06.R11: every field of the 25-character string is the zero-padded
+    decimal text of its value; with a precision, digits are replaced by
+    asterisks *in that fixed-width text*.  Cutting the unpadded text
+    (`str(value)[:n]`) takes the first digits of the number instead of the
+    first digits of the field: day 5 of a precision-6 timestamp prints as
+    '5*' instead of '0*', which parses to another instant (or is
+    rejected)."""
+    from ..paths import return_paths
+    r11 = rep.rule('C06.R11', 'datetime fields are cut from the zero-padded, '
+                   'fixed-width text of the value')
+    dt = repo.cls('pywbem/_cim_types.py', 'CIMDateTime')
+    f = dt.methods.get('_to_str')
+    if f is None:
+        raise AnalysisError('CIMDateTime._to_str vanished')
+    r11.functions.add(f.fq)
+    params = {p_ for p_ in f.params if p_ != 'self'}
+    paths = return_paths(f, inline=False)
+    if not paths:
+        raise AnalysisError('CIMDateTime._to_str: no return paths')
+    for pth in paths:
+        if pth.value is None:
+            continue
+        r11.sites += 1
+        env = {}
+        for st in pth.effects:
+            if isinstance(st, ast.Assign) and len(st.targets) == 1 and \
+                    isinstance(st.targets[0], ast.Name):
+                k = _field_text_kind(st.value, env, params)
+                if k is None:
+                    env.pop(st.targets[0].id, None)
+                else:
+                    env[st.targets[0].id] = k
+        k = _field_text_kind(pth.value, env, params)
+        if k is None:
+            r11.undecided.append('_to_str: %s' % norm(pth.value, 60))
+            continue
+        ok = k in ('padded', 'piece')
+        r11.ob(ok, 'return %s' % norm(pth.value, 60), {'kind': k})
+        if not ok:
+            rep.finding(r11, f.qualname, 'return %s' % norm(pth.value, 70),
+                        'unpadded-field', 'pywbem/_cim_types.py',
+                        getattr(pth.ret_stmt, 'lineno', f.node.lineno),
+                        'the field text is built from the unpadded decimal '
+                        'text of the value (%s): leading zeros of the field '
+                        'are lost, so with a precision that cuts into the '
+                        'field the digits shown are not the leading digits '
+                        'of the field (5 -> "5*" instead of "0*")' % k)
+    if r11.sites < 2:
+        raise AnalysisError('CIMDateTime._to_str: only %d return paths'
+                            % r11.sites)
